@@ -132,6 +132,9 @@ def gen_math(rng):
             body.append(rng.choice([f"{a} = {b} + {rng.choice('123')}", f"{a} - {b} {rng.choice(OPS)} {rng.choice('012')}",
                                     f"{a} + {b} {rng.choice(OPS)} {rng.choice('345')}", f"{a} {rng.choice(OPS)} {b}",
                                     f"2*{a} = {b} + {b}", f"{a} = {b} * {rng.choice('23')}", f"W = {a} + {b}, W > 3"]))
+        if rng.random() < 0.15:
+            c = rng.choice([f"not {vs[0]} != {vs[1]}", f"not not {vs[0]} < {vs[1]}", "not 1 != 1", f"not {vs[0]} > 2"])
+            body += [c, c]
         lines.append(f"h({','.join(vs[:rng.choice([1, n])])}) :- {', '.join(body)}.")
     else:
         lines.append("{ on(S) } :- sw(S).")
@@ -146,8 +149,14 @@ def gen_math(rng):
         for _ in range(rng.choice([1, 2])):
             a = rng.choice(used)
             b = rng.choice(used + ["T"])
-            rel.append(rng.choice([f"{a} {rng.choice(OPS)} {rng.choice('1234')}", f"{a} + {b} {rng.choice(OPS)} {rng.choice('2345')}",
-                                   f"{a} {rng.choice(OPS)} {b}", f"{a} - {b} {rng.choice(OPS)} 0"]))
+            rel.append(rng.choice([f"{a} {rng.choice(OPS)} {rng.choice('01234')}", f"{a} + {b} {rng.choice(OPS)} {rng.choice('2345')}",
+                                   f"{a} {rng.choice(OPS)} {b}", f"{a} - {b} {rng.choice(OPS)} 0",
+                                   # two-sided bounds, one of them 0 / negative: the constants of the two relations differ in kind
+                                   f"{a} {rng.choice(['>', '>=', '!='])} 0, {a} {rng.choice(['<', '<='])} {rng.choice('2345')}",
+                                   f"{a} {rng.choice(['<', '<='])} {rng.choice('234')}, {a} {rng.choice(['>', '>='])} -{rng.choice('012')}"]))
+        if rng.random() < 0.12:  # a signed comparison, twice (dict keys collapse)
+            c = rng.choice(["not 1 != 1", "not not 1 = 1", f"not {used[0]} != {used[0]}", "not 2 < 1"])
+            rel += [c, c]
         extra = ", lim(T)" if any("T" in r for r in rel) else ""
         head = rng.choice(["sync", "sync", "", "lvl(N)" if "N" in used else "sync"])
         lines.append(f"{head} :- {', '.join(aggs + rel)}{extra}.")
